@@ -15,10 +15,33 @@ def over : List Window.Cell → Nat → (Nat → Option Window.Cell) → Nat →
   | [], _, f => f
   | c :: cs, col, f => over cs (col + c.w.toNat) (fun x => if x = col then some c else f x)
 
-/-- One row of the hard-wrap widget (`RichText.Draw` with `Softwrap = false`), as its code draws
-it: graphemes at their columns as in `over`, but the first grapheme that would reach or pass
-`Max.Width` (`col + width ≥ maxW`) is replaced by "…" (width 1, style of the replaced cell unless
-the widget imposes one) and the rest of the line is dropped. -/
+/-- Display width of a line (natural numbers). -/
+def width (l : List Window.Cell) : Nat := (l.map (·.w.toNat)).sum
+
+/-- The "…" that stands for the cut-off part of a line: width 1, in the style the widget imposes
+(`Text`) or in the style of the first grapheme it replaces (`RichText`). -/
+def ellipsisFor (est : Option Nat) (c : Window.Cell) : Window.Cell :=
+  { g := Window.gEllipsis, w := 1, st := est.getD c.st }
+
+/-- A line that does not fit, cut: the graphemes are kept as long as one more column stays free
+behind them (`col` = width so far), the first grapheme that would not leave that column is replaced
+by the ellipsis and the rest is dropped.  `Props.C16Draw.truncated_is_longest_prefix`: this is the
+longest prefix that leaves room for the ellipsis, followed by the ellipsis. -/
+def truncated (maxW : Nat) (est : Option Nat) : List Window.Cell → Nat → List Window.Cell
+  | [], _ => []
+  | c :: cs, col =>
+    if col + c.w.toNat + 1 ≤ maxW then c :: truncated maxW est cs (col + c.w.toNat) else [ellipsisFor est c]
+
+/-- **What the hard-wrap widgets (`Softwrap = false`) show for one line**, from the property text:
+a line that fits (`width ≤ Max.Width`) as it is; a line that does not fit as its longest prefix that
+leaves room for the ellipsis, followed by the ellipsis. -/
+def hardLine (maxW : Nat) (est : Option Nat) (line : List Window.Cell) : List Window.Cell :=
+  if width line ≤ maxW then line else truncated maxW est line 0
+
+/-- The row loop of the hard-wrap `Draw` when the line does not fit, in the shape of the code (an
+auxiliary form used by the proofs; `Lemmas.WrapDraw.overHard_eq_truncated`: it is `over (truncated …)`
+on the columns of the widget): graphemes at their columns as in `over`, the first grapheme that
+would reach or pass `Max.Width` (`col + width ≥ maxW`) replaced by "…", the rest dropped. -/
 def overHard (maxW : Nat) (est : Option Nat) : List Window.Cell → Nat → (Nat → Option Window.Cell) → Nat → Option Window.Cell
   | [], _, f => f
   | c :: cs, col, f =>
@@ -26,9 +49,6 @@ def overHard (maxW : Nat) (est : Option Nat) : List Window.Cell → Nat → (Nat
     else if col + c.w.toNat ≥ maxW then
       fun x => if x = col then some { g := Window.gEllipsis, w := 1, st := est.getD c.st } else f x
     else overHard maxW est cs (col + c.w.toNat) (fun x => if x = col then some c else f x)
-
-/-- Display width of a line (natural numbers). -/
-def width (l : List Window.Cell) : Nat := (l.map (·.w.toNat)).sum
 
 /-- The lines of a text for the hard-wrap widget: split at every "\n" grapheme; a final "\n" adds no
 empty line; the empty text has no line. -/
